@@ -135,6 +135,7 @@ type Netceptor struct {
 	reservedServices         map[string]func(*MessageData) error
 	serviceAdsLock           *sync.RWMutex
 	serviceAdsReceived       map[string]map[string]*ServiceAdvertisement
+	serviceAdsWithdrawn      map[string]map[string]time.Time
 	sendServiceAdsChan       chan time.Duration
 	backendWaitGroup         sync.WaitGroup
 	backendCount             int
@@ -336,6 +337,7 @@ func NewWithConsts(ctx context.Context, nodeID string,
 		nameHashes:               make(map[uint64]string),
 		serviceAdsLock:           &sync.RWMutex{},
 		serviceAdsReceived:       make(map[string]map[string]*ServiceAdvertisement),
+		serviceAdsWithdrawn:      make(map[string]map[string]time.Time),
 		sendServiceAdsChan:       nil,
 		backendWaitGroup:         sync.WaitGroup{},
 		backendCount:             0,
@@ -731,6 +733,7 @@ func (s *Netceptor) RemoveLocalServiceAdvertisement(service string) error {
 		},
 		Cancel: true,
 	}
+	s.noteServiceWithdrawn(s.nodeID, service, sa.Time)
 	data, err := s.translateStructToNetwork(MsgTypeServiceAdvertisement, sa)
 	if err != nil {
 		return err
@@ -1772,6 +1775,10 @@ func (s *Netceptor) handleServiceAdvertisement(data []byte, receivedFrom string)
 	s.Logger.SanitizedDebug("Received service advertisement from %s\n", si.NodeID)
 	s.serviceAdsLock.Lock()
 	defer s.serviceAdsLock.Unlock()
+	if withdrawn, ok := s.serviceAdsWithdrawn[si.NodeID][si.Service]; ok && !si.Time.After(withdrawn) {
+		// Not newer than a withdrawal we have already processed: neither store nor relay it.
+		return nil
+	}
 	n, ok := s.serviceAdsReceived[si.NodeID]
 	if !ok {
 		n = make(map[string]*ServiceAdvertisement)
@@ -1794,12 +1801,27 @@ func (s *Netceptor) handleServiceAdvertisement(data []byte, receivedFrom string)
 		if len(s.serviceAdsReceived[si.NodeID]) == 0 {
 			delete(s.serviceAdsReceived, si.NodeID)
 		}
+		s.noteServiceWithdrawn(si.NodeID, si.Service, si.Time)
 	} else {
 		s.serviceAdsReceived[si.NodeID][si.Service] = si.ServiceAdvertisement
 	}
 	s.flood(data, receivedFrom)
 
 	return nil
+}
+
+// Remembers the time of the newest withdrawal seen for a service, so that an older advertisement arriving
+// later (over another path, or re-ordered on the same link) cannot bring the service back.
+// The caller must hold serviceAdsLock.
+func (s *Netceptor) noteServiceWithdrawn(nodeID string, service string, t time.Time) {
+	w, ok := s.serviceAdsWithdrawn[nodeID]
+	if !ok {
+		w = make(map[string]time.Time)
+		s.serviceAdsWithdrawn[nodeID] = w
+	}
+	if t.After(w[service]) {
+		w[service] = t
+	}
 }
 
 // Goroutine to send data from the backend to the connection's ReadChan.
